@@ -41,9 +41,8 @@ func newSourceSplitterShardFromKinesis(shard kinesistypes.Shard) SourceSplitterS
 }
 
 func newSourceSplitterShardFromProto(shard *kinesispb.SourceSplitterShard) SourceSplitterShard {
-	var start, end *big.Int
-	start.SetBytes(shard.HashKeyRange.Start)
-	end.SetBytes(shard.HashKeyRange.End)
+	start := new(big.Int).SetBytes(shard.HashKeyRange.Start)
+	end := new(big.Int).SetBytes(shard.HashKeyRange.End)
 
 	return SourceSplitterShard{
 		ShardID:      shard.ShardId,
